@@ -1,6 +1,6 @@
 (* Properties/C05.v — pinned statements only. *)
 From Boreal Require Import Base.Prelude Base.Res Model.Eval Spec.CondSem Model.EvalCost Model.Scanner
-     Spec.RuleSetSpec Proofs.ScannerProofs.
+     Spec.RuleSetSpec Proofs.ScannerProofs Proofs.NoScanScannerProofs Proofs.CallbackProofs.
 
 (* The scan procedure (global rules first with delayed reporting, namespace disabling, fix-up of
    invalidated global rules, then ordinary rules with positional references to earlier results)
@@ -18,6 +18,26 @@ Theorem C05_scan_eq_spec :
     /\ o_rules (run_scan c Never inp sc) = spec_reported sc inp (c_nm c)
     /\ o_events (run_scan c Never inp sc) = [].
 Proof. exact run_scan_list_spec. Qed.
+
+(* ... and also when the scan is allowed to evaluate rules before scanning for strings (no-scan pass) *)
+Theorem C05_scan_eq_spec_any_config :
+  forall c inp sc,
+    c_cb c = false ->
+    wf_scanner inp sc = true -> ns_bound (s_nns sc) (s_globals sc) -> ns_bound (s_nns sc) (s_rules sc) ->
+    o_err (run_scan c Never inp sc) = None
+    /\ o_rules (run_scan c Never inp sc) = spec_reported sc inp (c_nm c).
+Proof. exact run_scan_list_spec_any. Qed.
+
+(* callback API: the events delivered are those of the specification, in the same order
+   (RuleMatch / RuleNoMatch according to the event mask), and nothing is returned as a list *)
+Theorem C05_callback_same :
+  forall c inp sc,
+    c_cb c = true -> can_noscan c = false ->
+    wf_scanner inp sc = true -> ns_bound (s_nns sc) (s_globals sc) -> ns_bound (s_nns sc) (s_rules sc) ->
+    o_err (run_scan c Never inp sc) = None
+    /\ o_events (run_scan c Never inp sc) = spec_events c sc inp
+    /\ o_rules (run_scan c Never inp sc) = [].
+Proof. exact run_scan_callback_spec. Qed.
 
 (* a namespace is disabled after the global phase iff one of its global rules does not hold *)
 Theorem C05_namespace_disabled_iff :
@@ -60,6 +80,8 @@ Example C05_example :
 Proof. vm_compute. repeat split. Qed.
 
 Print Assumptions C05_scan_eq_spec.
+Print Assumptions C05_scan_eq_spec_any_config.
+Print Assumptions C05_callback_same.
 Print Assumptions C05_namespace_disabled_iff.
 Print Assumptions C05_var_alignment.
 Print Assumptions C05_result_is_spec.
